@@ -177,3 +177,25 @@ def call_succeeded(p, pat, arg_preds=None):
             continue
         return True
     return False
+
+
+def int_bounds(p, pred):
+    """(lo, hi) implied on path p for an integer term satisfying pred, from its comparisons with literals (None = unbounded)."""
+    lo = hi = None
+    for (a, c, _, _) in p.decisions:
+        if a[0] != "lt":
+            continue
+        x, y = a[1], a[2]
+        if pred(x) and isinstance(y, tuple) and y[:1] == ("lit",) and isinstance(y[1], int):
+            n = y[1]
+            if c:
+                hi = n - 1 if hi is None else min(hi, n - 1)      # x < n
+            else:
+                lo = n if lo is None else max(lo, n)              # x >= n
+        elif pred(y) and isinstance(x, tuple) and x[:1] == ("lit",) and isinstance(x[1], int):
+            n = x[1]
+            if c:
+                lo = n + 1 if lo is None else max(lo, n + 1)      # n < x
+            else:
+                hi = n if hi is None else min(hi, n)              # x <= n
+    return lo, hi
